@@ -565,6 +565,9 @@ bool Parser::parse_patch_header(Patch& patch, PatchHeaderInfo& header_info, int 
             parser.parse_git_header_name(patch, strip);
             is_git_patch = true;
             patch.format = Format::Unified;
+            // This line belongs to the patch even if nothing else that we recognise follows it, make sure
+            // that we continue on from after it instead of from the start of this patch all over again.
+            header_info.lines_till_first_hunk = lines + 1;
             continue;
         }
 
